@@ -60,7 +60,7 @@ pub fn scale_module(rng: &mut Rng, variant: u64) -> (String, Vec<AInst>) {
     match variant {
         0 => {
             // a function with very many parameters
-            let k = *rng.pick(&[1usize, 16, 64, 127, 128, 253, 254, 255, 256, 257, 300, 1024]);
+            let k = if rng.chance(1, 12) { *rng.pick(&[65_535usize, 65_536, 65_537, 70_000]) } else { *rng.pick(&[1usize, 16, 64, 127, 128, 253, 254, 255, 256, 257, 300, 1024]) };
             let f = fresh();
             v.push(AInst::named("Function", Some(void), Some(f), vec![AOp::w(K::FunctionControl, 0), AOp::id(fnty)]));
             for _ in 0..k {
@@ -395,7 +395,7 @@ pub fn scale_module(rng: &mut Rng, variant: u64) -> (String, Vec<AInst>) {
         }
         _ => {
             // many functions / many blocks / many instructions in one block
-            let nf = *rng.pick(&[1usize, 2, 64, 255, 256, 257]);
+            let nf = if rng.chance(1, 12) { *rng.pick(&[4095usize, 4096, 4097, 65_535, 65_536, 65_537]) } else { *rng.pick(&[1usize, 2, 64, 255, 256, 257]) };
             for _ in 0..nf {
                 let (f, l) = (fresh(), fresh());
                 open_fn(&mut v, f, l);
